@@ -370,6 +370,92 @@ pub fn run(ctx: &Ctx) -> Report {
         rep.counters.inc("errors_that_arrived_although_the_backend_gave_up");
     });
     rep.merge(r);
+    // ---- the client does not wait: the failing command and a COM_QUIT behind it arrive in one read (or in
+    //      any other way), over a transport that hands bytes to the peer only when the server flushes.
+    //      run_on returns Ok(()) - and by then the ERR has been flushed: an ERR that sits in a buffer of
+    //      a connection that is over has not reached the client
+    let n = if ctx.miri { 2 } else { ctx.n(600, 20_000) };
+    let r = par_cases(ctx, "C13", "error-then-quit-without-waiting", n, |rng, i, rep| {
+        let (name, code) = &kinds_ref[rng.usize(kinds_ref.len())];
+        let code = *code;
+        let msg = messages(rng);
+        let cols = vec![simple_col("a", ColumnType::MYSQL_TYPE_LONG)];
+        let q = |ops: Vec<QOp>| Script::Q(QProg { colsets: vec![cols.clone()], ops, on_err: OnErr::Drop });
+        let mut cmds = vec![Cmd::prepare(b"p")];
+        let mut scripts = vec![Script::PrepOk { id: 1, params: vec![], cols: cols.clone() }];
+        let site = i % 5;
+        let site_name = ["on_query error", "finish_error after a row (text)", "finish_error after a row (binary)", "prepare error", "init error"][site as usize];
+        match site {
+            0 => {
+                cmds.push(Cmd::query(b"q"));
+                scripts.push(q(vec![QOp::Error(code, msg.clone())]));
+            }
+            1 | 2 => {
+                cmds.push(if site == 1 { Cmd::query(b"q") } else { Cmd::execute(1, &[], false) });
+                scripts.push(q(vec![QOp::Start(0), QOp::Row(vec![Cell::val(V::I32(5))], RowForm::Owned), QOp::FinishErr(code, msg.clone())]));
+            }
+            3 => {
+                cmds.push(Cmd::prepare(b"bad"));
+                scripts.push(Script::PrepErr(code, msg.clone()));
+            }
+            _ => {
+                cmds.push(Cmd::init_db(b"db"));
+                scripts.push(Script::InitErr(code, msg.clone()));
+            }
+        }
+        cmds.push(Cmd::quit());
+        let mut case = Case::new(cmds, scripts);
+        match i % 3 {
+            0 => {}
+            1 => {
+                let (input, _) = case.input();
+                let sk = *rng.pick(&[SchedKind::OneByte, SchedKind::HeaderCuts, SchedKind::Random, SchedKind::Boundaries]);
+                case.sched = make_sched(rng, sk, &input);
+            }
+            _ => case.write_limit = *rng.pick(&[1usize, 7, 100, 4096]),
+        }
+        let obs = run_case(&case);
+        rep.evaluations += 1;
+        rep.counters.class(format!("error then QUIT without waiting: {}", site_name));
+        if harness_panic(&obs, rep) {
+            return;
+        }
+        let d = || J::obj().set("kind", name.clone()).set("code", code).set("site", site_name).set("message", show(&msg)).set("flushed_bytes", obs.world.visible.len()).set("written_but_never_flushed", obs.world.pending.len()).set("outcome", obs.outcome.describe());
+        if i < 2 {
+            rep.sample(d());
+        }
+        if obs.outcome != Outcome::Ok {
+            let sig = if let Outcome::Panic { file, line, msg } = &obs.outcome { format!("C13 {}", panic_signature(file, *line, msg)) } else { "C13 quit-not-a-clean-end".into() };
+            rep.violations.push(viol("C13", sig, format!("a conversation that ends with COM_QUIT behind an error made run_on return {}", obs.outcome.describe()), d()));
+            return;
+        }
+        // what the client has: the flushed bytes only
+        let (pkts, _) = wire::packets_prefix(&obs.world.visible);
+        let (msgs, _) = wire::messages_prefix(&obs.world.visible, &pkts);
+        let dec = wire::decode_all(&obs.kinds, &msgs);
+        let errp = match dec.resps.get(3) {
+            Some(Resp::Parts(parts)) => match parts.last() {
+                Some(Part::Err(e)) => Some(e.clone()),
+                Some(Part::Rows { end: RowsEnd::Err(e), .. }) => Some(e.clone()),
+                _ => None,
+            },
+            Some(Resp::PrepareErr(e)) => Some(e.clone()),
+            Some(Resp::Simple(Part::Err(e))) => Some(e.clone()),
+            _ => None,
+        };
+        let Some(e) = errp else {
+            rep.violations.push(viol("C13", format!("C13 reported-error-never-flushed @ {}", site_name), format!("run_on returned Ok(()) after COM_QUIT; the client has {} flushed bytes holding {} complete replies and no ERR for the failed command; {} bytes were written and never flushed", obs.world.visible.len(), dec.resps.len(), obs.world.pending.len()), d()));
+            return;
+        };
+        let want_state = *ErrorKind::from(code).sqlstate();
+        if e.code != code || e.state != want_state || e.msg != msg {
+            rep.violations.push(viol("C13", format!("C13 err-differs @ {}", site_name), format!("ERR packet carries ({}, {}, {}) but the shim reported ({}, {}, {})", e.code, show(&e.state), show(&e.msg), code, show(&want_state), show(&msg)), d()));
+            return;
+        }
+        rep.counters.inc("err_packets_compared");
+        rep.counters.inc("errors_flushed_before_the_connection_ended_with_quit");
+    });
+    rep.merge(r);
     // ---- several errors on one connection: the same kind again and again, texts of the same length
     //      that differ in a few characters ("Unknown table 't7'" / "Unknown table 't8'"), formatted by
     //      the backend into one reused buffer (same address) - every ERR carries its own text
